@@ -8,9 +8,12 @@ package commands
 // runWipe: when it reports success, every entity is gone, no git-bug key is left in the local configuration
 // and the local storage has been emptied. It must get there from every configuration state - also when
 // no user identity is set and when the git-bug section does not exist at all.
+// a key below git-bug.identity is a key below git-bug (string fact, assumed)
+//@ axiom identity_key_is_a_git_bug_key: forall k string :: { strings.HasPrefix(k, "git-bug.identity") } strings.HasPrefix(k, "git-bug.identity") ==> strings.HasPrefix(k, "git-bug")
 //@ func runWipe
-//@   props C14
+//@   props C14 C15
 //@   requires env != nil && env.Backend != nil && env.Out != nil
 //@   ensures [entities-gone] result == nil ==> cache.entitiesWiped
 //@   ensures [config-gone]   result == nil ==> (forall k string :: { (k in repository.cfgKeys) } (k in repository.cfgKeys) ==> !strings.HasPrefix(k, "git-bug"))
 //@   ensures [storage-gone]  result == nil ==> repository.storageWiped
+//@   ensures [foreign-config-untouched] forall k string :: { (k in repository.cfgKeys) } !strings.HasPrefix(k, "git-bug") ==> (k in repository.cfgKeys) == old(k in repository.cfgKeys)
